@@ -120,6 +120,23 @@ def check_nodes(p: Project, r: Result):
                             why = f'the chosen token is used {t.used} times'
                     if why and rec['ok']:
                         rec.update(ok=False, pa=pa, why=why)
+            # every selection among reservation tokens in a node process (also the combiner's counted drain over a local token list) picks by `.triggered`:
+            # `.processed` lags behind `.triggered` within an instant, `.ok` / `.value` mean something else
+            for pa in ps:
+                if pa.raises or pa.status == 'loopcut':
+                    continue
+                for e in pa.events:
+                    if e.kind != 'lookup' or not e.d.get('var'):
+                        continue
+                    pred = (e.pred or '').replace(' ', '')
+                    var = e.var
+                    if f'{var}.' not in pred or 'requesting_process' in pred:
+                        continue            # not a selection by event state (e.g. a store-side validation look-up)
+                    key = site(e.fi, e.node, 'selects-by-triggered', same=lambda n: isinstance(n, ast.Call) and isinstance(n.func, ast.Name) and n.func.id == 'next')
+                    rec = sites.setdefault(key, {'ok': True, 'e': e, 'pa': pa, 'why': ''})
+                    if pred != f'{var}.triggered' and rec['ok']:
+                        rec.update(ok=False, pa=pa, why=f'a reservation token is selected by `{e.pred}`, not by `{var}.triggered`: a token granted in the same instant but not '
+                                                        f'yet processed by the kernel is overlooked (the wait set is not re-armed for it) or a wrong token is taken')
             for key, rec in sorted(sites.items()):
                 e = rec['e']
                 r.analysed_functions.add(e.fi.key)
